@@ -67,8 +67,28 @@ Definition rng_eval (seed : N) (k : nat) : list Z :=
   let s := seed_from_u64 seed in
   map Z.of_N ([s0 s; s1 s; s2 s; s3 s] ++ outputs k s).
 
+(* ---- the state transition alone, its inverse, and k transitions (theorems: Proofs/RngBij.v).
+   prev_state has no counterpart in the code: it is the witness that the transition is a bijection ---- *)
+Definition xsl17 (x : N) : N := N.lxor x (shl64 x 17).
+Definition xsl17_inv (y : N) : N :=
+  N.lxor y (N.lxor (shl64 y 17) (N.lxor (shl64 y 34) (shl64 y 51))).
+Definition next_state (s : xstate) : xstate := snd (next_u64 s).
+Definition prev_state (s : xstate) : xstate :=
+  let r3 := rotr64 (s3 s) 45 in
+  let o0 := N.lxor (s0 s) r3 in
+  let o1 := xsl17_inv (N.lxor (s1 s) (s2 s)) in
+  let o2 := N.lxor (N.lxor (s1 s) o1) o0 in
+  let o3 := N.lxor r3 o1 in
+  {| s0 := o0; s1 := o1; s2 := o2; s3 := o3 |}.
+Fixpoint steps (k : nat) (s : xstate) : xstate :=
+  match k with O => s | S k' => steps k' (next_state s) end.
+
 (* float conversions and the injection state: numerators of the first f64 / f32 uniform of
    seed_from_u64 s, then first output and first f64 / f32 numerators of inject_state s *)
 Definition rng_uniform_eval (s : N) : list Z :=
   map Z.of_N [fst (uniform53 (seed_from_u64 s)); fst (uniform24 (seed_from_u64 s));
-              fst (next_u64 (inject_state s)); fst (uniform53 (inject_state s)); fst (uniform24 (inject_state s))].
+              fst (next_u64 (inject_state s)); fst (uniform53 (inject_state s)); fst (uniform24 (inject_state s));
+              (* the 4th output through `steps`, and the transition undone by `prev_state` (1 = back at the seed state) *)
+              fst (next_u64 (steps 3 (seed_from_u64 s)));
+              (let z := seed_from_u64 s in let w := prev_state (next_state z) in
+               if andb (andb (s0 w =? s0 z) (s1 w =? s1 z)) (andb (s2 w =? s2 z) (s3 w =? s3 z)) then 1 else 0)].
